@@ -4,7 +4,8 @@ From Coq Require Import List Bool String.
 From Coq.Strings Require Import Byte.
 From GI Require Import Lib.Bytes Gen.TxtarWriteConsts Txtar.Txtar
   TxtarWrite.Path TxtarWrite.TxtarWrite TxtarWrite.PathFacts TxtarWrite.WriteFacts
-  TxtarWrite.RelFacts TxtarWrite.RelWrite TxtarWrite.GoodWrite TxtarWrite.SavedirFacts.
+  TxtarWrite.NulFacts TxtarWrite.RelFacts TxtarWrite.RelWrite TxtarWrite.GoodWrite TxtarWrite.SavedirFacts
+  TxtarWrite.NameFacts.
 Import ListNotations.
 
 Definition B (x : string) : bytes := list_byte_of_string x.
@@ -86,13 +87,15 @@ Qed.
 
 Definition ex_empty_fs : fsys := [([B "s"], Dir); ([B "s"; B "p"], Dir); ([B "s"; B "q"], File (B "other"))].
 
+(* current directory /s, directory string "./p" *)
 Example ex_round_trip_hyps :
-  is_abs (B "/s/p") = true /\ Forall nul_free (resolve [] (B "/s/p")) /\
-  dir_exists ex_empty_fs (resolve [] (B "/s/p")) /\
-  (forall q, beneath (resolve [] (B "/s/p")) q -> get ex_empty_fs q = None).
+  Forall real [B "s"] /\ Forall nul_free [B "s"] /\ has_nul (B "./p") = false /\
+  dir_exists ex_empty_fs (resolve [B "s"] (B "./p")) /\
+  (forall q, beneath (resolve [B "s"] (B "./p")) q -> get ex_empty_fs q = None).
 Proof.
-  change (resolve [] (B "/s/p")) with [B "s"; B "p"].
-  split; [reflexivity|]. split; [repeat constructor; solve_real|]. split.
+  change (resolve [B "s"] (B "./p")) with [B "s"; B "p"].
+  split; [repeat constructor; solve_real|]. split; [repeat constructor; solve_real|].
+  split; [reflexivity|]. split.
   - intros p [q E]. destruct p as [|a [|b [|c p]]]; simpl in E; inversion E; subst; reflexivity.
   - intros q [c [r ->]]. reflexivity.
 Qed.
@@ -107,3 +110,41 @@ Example ex_round_trip :
   /\ restored (comment (parse (txtar_c fl ex_tree))) (B "sub/z") (B ">-- x --" ++ [NL] ++ B ">more" ++ [NL])
      = Some (B "-- x --" ++ [NL] ++ B "more" ++ [NL]).
 Proof. vm_compute. repeat split; reflexivity. Qed.
+
+(* ------------------------------------------------------------------ outside tree_ok *)
+
+(* `txtar-c /`: the names come out absolute and txtar-x refuses the archive *)
+Example ex_root_dir_names :
+  entry_name (clean (B "/")) [B "a"; B "b"] = B "/a/b" /\
+  entry_name (clean (B "x/..")) [B "a"; B "b"] = B "a/b" /\
+  snd (write [] [] (B "/s") {| comment := []; files := [(entry_name (clean (B "/")) [B "a"; B "b"], B "x")] |})
+  = WOutside.
+Proof. vm_compute. repeat split; reflexivity. Qed.
+
+Definition ex_fl : sflags := {| f_quote := true; f_all := false |}.
+
+(* a name with a leading space is not txtar-representable: the marker line is trimmed and
+   the file comes back under another name *)
+Example ex_leading_space_name :
+  let t := [([B " a"], B "x" ++ [NL])] in
+  wf_name (B " a") = false /\
+  let r := extract [] ex_empty_fs (B "/s/p") (txtar_c ex_fl t) in
+  snd r = WOk /\ get (fst r) [B "s"; B "p"; B " a"] = None /\
+  get (fst r) [B "s"; B "p"; B "a"] = Some (File (B "x" ++ [NL])).
+Proof. vm_compute. repeat split; reflexivity. Qed.
+
+(* a name containing a newline breaks the marker line: another file appears *)
+Example ex_newline_name :
+  let n := B "x" ++ [NL] ++ B "-- y --" in
+  let t := [([n], B "d" ++ [NL])] in
+  wf_name n = false /\
+  let r := extract [] ex_empty_fs (B "/s/p") (txtar_c ex_fl t) in
+  snd r = WOk /\ get (fst r) [B "s"; B "p"; n] = None /\
+  get (fst r) [B "s"; B "p"; B "y --"] = Some (File (B "d" ++ [NL])).
+Proof. vm_compute. repeat split; reflexivity. Qed.
+
+(* two names that differ by trailing white space collide: txtar-x fails on the second *)
+Example ex_trailing_cr_name :
+  let t := [([B "a" ++ [CR]], B "d" ++ [NL]); ([B "a"], B "e" ++ [NL])] in
+  snd (extract [] ex_empty_fs (B "/s/p") (txtar_c ex_fl t)) = WErr OpOpen EEXIST.
+Proof. vm_compute. reflexivity. Qed.
